@@ -257,8 +257,7 @@ Generate(seed, dir, procs) ==
      /\ meth' = r.meth /\ helpers' = r.helpers /\ imports' = r.imports /\ warn' = r.warn
      /\ ok' = r.ok /\ comp' = r.comp
      /\ act' = [name |-> "Generate", seed |-> seed, dir |-> dir, procs |-> procs,
-                devs |-> Fired(Dev), regen |-> RegenOf(Dev), addsOnly |-> AddsOnly, wasClean |-> (dirty = "clean"),
-                ideal |-> GenResult({})]
+                devs |-> Fired(Dev), regen |-> RegenOf(Dev), addsOnly |-> AddsOnly, wasClean |-> (dirty = "clean")]
   /\ gen' = Fingerprint          \* C18: a function of (schema, texists, cfg) only
   /\ dirty' = "clean"
   /\ UNCHANGED <<schema, texists, cfg>>
